@@ -9,7 +9,9 @@ import (
 	"fmt"
 	"io"
 	"regexp"
+	"strings"
 
+	"verifharness/c15"
 	"verifharness/c20"
 	"verifharness/hx"
 	"verifharness/writers"
@@ -35,6 +37,55 @@ func unzip(data []byte) []writers.Member {
 
 var xmlNumRe = regexp.MustCompile(`="(-?\d+)"`)
 var xmlRefRe = regexp.MustCompile(`(Target|href|full-path|r:id|r:embed|idref|xlink:href)="([^"]*)"`)
+
+// richNumberFaults: structurally rich documents (merged cells, nested lists, heading
+// levels, column widths — the c15 generator) with EVERY numeric attribute and every
+// all-digit element text replaced by each hostile value, one at a time; the sites are
+// visited round-robin over the values so a small budget still touches every site.
+var xmlNumTextRe = regexp.MustCompile(`>(-?\d+)<`)
+
+func richNumberFaults(c *hx.Ctx, format string, seed uint64, docs, budget int) {
+	values := []string{"0", "-1", "2147483647", "2147483648", "4294967296", "999999999", "9223372036854775807", "-9223372036854775808"}
+	ext := c20.ExtOf(format)
+	n := 0
+	for d := 0; d < docs; d++ {
+		r := hx.NewRng(seed*977 + uint64(d))
+		base := unzip(c15.GenRich(r, strings.ToLower(format)))
+		if len(base) == 0 {
+			c.Note("c02: could not re-read the rich %s", format)
+			return
+		}
+		type site struct{ mi, a, b int }
+		var sites []site
+		for mi, m := range base {
+			for _, s := range xmlNumRe.FindAllSubmatchIndex(m.Data, -1) {
+				sites = append(sites, site{mi, s[2], s[3]})
+			}
+			for _, s := range xmlNumTextRe.FindAllSubmatchIndex(m.Data, -1) {
+				sites = append(sites, site{mi, s[2], s[3]})
+			}
+		}
+		c.Count(fmt.Sprintf("%s-rich-sites=%d", format, len(sites)/50*50))
+		for vi := range values {
+			for si, st := range sites {
+				if n >= budget {
+					return
+				}
+				v := values[(vi+si)%len(values)]
+				m := base[st.mi]
+				data := append(append(append([]byte(nil), m.Data[:st.a]...), v...), m.Data[st.b:]...)
+				ms := append([]writers.Member(nil), base...)
+				ms[st.mi] = writers.Member{Name: m.Name, Data: data, Store: m.Store}
+				n++
+				runBytes(c, kase{Format: format, Doc: d, Seed: seed, Faults: []fault{{Kind: "rich-number", Ordinal: st.mi, Site: si, Value: v}}}, ext, writers.Zip(ms), "z")
+				c.Count(format + "-rich-number")
+			}
+			if !c.Thorough() && vi >= 1 {
+				break // quick: two values per site (rotating), thorough: all eight
+			}
+		}
+	}
+}
 
 func zipFaults(c *hx.Ctx, format string, seed uint64, budget int) {
 	r := hx.NewRng(seed)
